@@ -5,5 +5,5 @@ THEOREMS = []
 TRUSTED = []
 ASSUMPTIONS = []
 LEVEL_TEXT = "Lean theorems: the limb-level leaf kernels (mul_1/addmul_1/submul_1/mul_basecase) compute exact products for all lengths; the mpz layer's sign/size/alias logic refines integer multiplication; Karatsuba/Toom evaluation-interpolation sequences are exact over the integers; the size dispatch extracted from mul.c calls every algorithm inside its domain; the FFT parameter selection satisfies the no-wrap conditions. The models run against the rebuilt library on every check across all crossovers, unbalanced ratios and worst-case data."
-LEVEL_NOTE = "Limb-level carries inside the Toom interpolations, top-limb growth across FFT layers, the whole-function statement for mpir_fft_mulmod_2expp1 (pointwise products above the cutoff), mulhigh_n, toom42_mulmid (used through its specification by the proved mulmid routines) and the assembly basecases rest on the correspondence run; the transforms are proved at value level."
+LEVEL_NOTE = "Limb-level carries inside the Toom interpolations, top-limb growth across FFT layers, the whole-function statement for mpir_fft_mulmod_2expp1 (pointwise products above the cutoff), mulhigh_n, the even core of toom42_mulmid (hypothesis EvenCore of the proved mulmid routines) and the assembly basecases rest on the correspondence run; the transforms are proved at value level."
 PLACEHOLDER = True
